@@ -47,6 +47,13 @@ CHECKS = {
          "entity_id; unlink ops remove exactly one reference and no entity.",
          "Dimension links are generated inside one block (no documented use links across blocks); timestamps are "
          "ignored here (C19).", "DESIGN.md 4/C04"),
+ "C05": ("Hypothesis-generated link topologies + alias / dimension-link / acceptance probes, all-paths-agree oracle",
+         "On generated cross-linked files a mutation through any access path (owning container, every link list, role "
+         "links, found handles) must be visible with identical walk through all other paths and after reopen; "
+         "linked range/set dimensions must report target[index vector], unit and label live, explicit ticks and links "
+         "replace each other; every link list must accept same-block entities of the right kind and refuse everything "
+         "else (wrong kind, other block incl. same-named) leaving the list unchanged.",
+         "The model of 'which path denotes which entity' is the harness' own record of its calls.", "DESIGN.md 4/C05"),
 }
 PENDING = {}
 
